@@ -229,6 +229,69 @@ def run_roundtrip(case, R):
         R.fail("C16.decode-shares-state", f"{cls.__qualname__}: after modifying a decoded message, decoding the same bytes again gives {again!r:.300} != {obj!r:.300}", **ctx)
 
 
+# ---------------------------------------------------------------- struct-valued characteristics read through the model
+def _struct_chars():
+    from aiohomekit.model.characteristics.data import characteristics as table
+    return sorted((t, bool(d.get("array")), d["struct"]) for t, d in table.items() if d.get("struct"))
+
+
+def run_char_value(case, R):
+    """Characteristic.value of a tlv8 characteristic with a declared message type: the base64 payload an accessory sends (for array
+    characteristics the items joined by zero-length separators) must come back as the message(s) that were encoded."""
+    import base64
+
+    from aiohomekit.model import Accessory
+    ctype, is_array, cls = next(x for x in _struct_chars() if x[0] == case["type"])
+    vals = case["vals"]
+    objs = [build(cls, v) for v in vals]
+    R.nt(is_array and len(vals) != 1)
+    R.cls("char-value:" + cls.__qualname__, f"array-items={len(vals)}" if is_array else "single")
+    parts = [refhap.enc_struct(ref_items(cls, v)) for v in vals]
+    raw = b"\x00\x00".join(parts) if is_array else parts[0]
+    acc = Accessory(1)
+    svc = acc.add_service("00000110-0000-1000-8000-0026BB765291")
+    ch = svc.add_char(ctype)
+    ch.set_value(base64.b64encode(raw).decode())
+    ctx = {"cls": cls.__qualname__}
+    try:
+        got = ch.value
+    except Exception as e:  # noqa: BLE001
+        R.fail("C16.decode-raises", f"Characteristic.value for {ctype} payload {raw.hex()[:200]}: {type(e).__name__}: {e}", exc=type(e).__name__, **ctx)
+        return
+    want = objs if is_array else objs[0]
+    if got != want:
+        R.fail("C16.roundtrip", f"Characteristic.value for {ctype} payload {raw.hex()[:200]}: {got!r:.300} != {want!r:.300}", **ctx)
+
+
+@st.composite
+def char_value_cases(draw):
+    chars = _struct_chars()
+    ctype, is_array, cls = chars[draw(st.integers(0, len(chars) - 1))]
+    n = draw(st.integers(0, 4)) if is_array else 1
+    return {"type": ctype, "vals": [draw(struct_value(cls)) for _ in range(n)]}
+
+
+def enum_char_value(tier):
+    """Array characteristics: every ordered pair / triple of single-field boundary items (an item ending in 00 before the separator)."""
+    for ctype, is_array, cls in _struct_chars():
+        if not is_array:
+            continue
+        singles = []
+        for f in init_fields(cls):
+            k = kind(f.type)
+            if k[0] == "enum":
+                singles += [{f.name: int(m)} for m in k[2]]
+            elif k[0] == "int":
+                singles += [{f.name: v} for v in (0, 1, 255)]
+        yield {"type": ctype, "vals": []}
+        for a in singles:
+            yield {"type": ctype, "vals": [a]}
+            for b in singles:
+                yield {"type": ctype, "vals": [a, b]}
+                for c in singles[:3]:
+                    yield {"type": ctype, "vals": [a, b, c]}
+
+
 # ---------------------------------------------------------------- strategies
 def utf8_text(nbytes, draw):
     """A str whose UTF-8 encoding has exactly nbytes bytes."""
@@ -637,6 +700,9 @@ SPEC = Property(
               space="every class x every scalar field alone x boundary values / sizes / enum members", min_nontrivial=200),
         Layer("roundtrip-gen", run_roundtrip, strategy=roundtrip_cases, n={"quick": 10000, "thorough": 150000}, min_nontrivial=300),
         Layer("alias-fields", run_roundtrip, enumerate=enum_alias, exhaustive=True, space="first-declared fields of duplicated TLV types"),
+        Layer("characteristic-value-arrays", run_char_value, enumerate=enum_char_value, exhaustive=True,
+              space="array-valued tlv8 characteristics read through Characteristic.value: empty list, every item, ordered pair and triple of boundary items"),
+        Layer("characteristic-value", run_char_value, strategy=char_value_cases, n={"quick": 1500, "thorough": 30000}),
         Layer("ble-char-signature", run_ble_char_sig, strategy=lambda: st.builds(lambda c: {"char": c}, char_desc(with_service=True)),
               n={"quick": 5000, "thorough": 60000}),
         Layer("ble-service-linked-grid", run_ble_service_sig, enumerate=enum_linked, exhaustive=True,
